@@ -210,6 +210,18 @@ func c13KindBit(c *core.Ctx) {
 								if ix, ok := ast.Unparen(and.X).(*ast.IndexExpr); ok {
 									if i0, ok := core.ConstInt(ainfo, ix.Index); ok && i0 == 0 {
 										rk, rs, rm, rpos = k, s, m, a.Rhs.Pos()
+										// the byte inspected is the frame's first header byte: p is, on every path, the result of the c.read(1) that opens the frame
+										hdr := false
+										if d, ok := adv.SingleDef(ix.X); ok {
+											if te, ok := d.(*core.TupleElem); ok && te.Index == 0 {
+												if ce, ok := ast.Unparen(te.X).(*ast.CallExpr); ok && adv.CalleeKey(ce) == wtRead && len(ce.Args) == 1 {
+													if n, ok := core.ConstInt(ainfo, ce.Args[0]); ok && n == 1 {
+														hdr = true
+													}
+												}
+											}
+										}
+										c.Check(R, "webtransport.(*Conn).advanceFrame/kind-from-header-byte", a.Rhs.Pos(), hdr, "the kind is taken from byte 0 of the c.read(1) result (the header byte), not from a later read (an extended-length byte)")
 									}
 								}
 							}
